@@ -165,6 +165,9 @@ def build_world(ctx, wi, c, profile):
     return {"wi": wi, "c": c, "profile": profile, "top": top, "base": base, "run": runp, "index": index, "fmap": fmap, "wdir": wdir}
 
 
+GO_TOOL_FILES = ("go.mod", "go.sum")      # inputs the go command may touch; never written by mockery
+
+
 def fresh(w):
     shutil.rmtree(w["run"], ignore_errors=True)
     shutil.copytree(w["base"], w["run"])
@@ -207,7 +210,7 @@ def run_world(ctx, w, cap, min_runs):
         o1, o2, of = orders_of(res.trace)
         seen1.add(o1)
         seenf.add(of)
-        runs.append({"exit": res.code, "tree": tree_hash(w["run"]), "orders": (o1, o2, of), "trace": res.trace,
+        runs.append({"exit": res.code, "tree": tree_hash(w["run"], skip=GO_TOOL_FILES), "orders": (o1, o2, of), "trace": res.trace,
                      "panic": res.panicked, "brief": res.brief()})
         enough1 = n_conf <= 1 or len(seen1) >= n_conf
         enoughf = n_files <= 1 or len(seenf) >= (2 if res.code != 0 else min(n_files, 3))
@@ -219,7 +222,7 @@ def run_world(ctx, w, cap, min_runs):
             res = run_bin(ctx, w["run"], timeout=240, tag=f"i{r}")
             if res.timed_out:
                 raise MachineryError(f"mockery timed out re-running order world {w['wi']}")
-            reruns.append({"exit": res.code, "tree": tree_hash(w["run"]), "panic": res.panicked, "brief": res.brief(),
+            reruns.append({"exit": res.code, "tree": tree_hash(w["run"], skip=GO_TOOL_FILES), "panic": res.panicked, "brief": res.brief(),
                            "selected": [(e["pkg"], e["iface"]) for e in res.trace if e.get("ev") == "Select" and e.get("gen")]})
     w["runs"], w["reruns"] = runs, reruns
     w["seen1"], w["seenf"] = seen1, seenf
